@@ -558,7 +558,9 @@ func splNoNil(s *sentPacketList, k int) bool {
 //@   abstractrem
 //@   requires c != nil && c.cc != nil
 //@   requires splOK(&c.spaces[0].sentPacketList) && splOK(&c.spaces[1].sentPacketList) && splOK(&c.spaces[2].sentPacketList)
-//@   requires forall k int :: splNoNil(&c.spaces[0].sentPacketList, k) && splNoNil(&c.spaces[1].sentPacketList, k) && splNoNil(&c.spaces[2].sentPacketList, k)
+//@   requires forall k int :: splNoNil(&c.spaces[0].sentPacketList, k)
+//@   requires forall k int :: splNoNil(&c.spaces[1].sentPacketList, k)
+//@   requires forall k int :: splNoNil(&c.spaces[2].sentPacketList, k)
 //@   requires !samebase(c.spaces[0].p, c.spaces[1].p) && !samebase(c.spaces[0].p, c.spaces[2].p) && !samebase(c.spaces[1].p, c.spaces[2].p)
 //@   loop 2 invariant 0 <= i && c.cc == old(c.cc)
 //@   loop 2 step sent.state != atiter(sent.state) ==> (atiter(sent.state) == sentPacketSent && sent.state == sentPacketLost)
